@@ -10,18 +10,20 @@ import ClockBound.Rs.EmbedShm
 namespace ClockBound.Rs
 open ClockBound ClockBound.Rs ClockBound.Rs.DictShm
 
-attribute [rs_eval] DictShm.path DictShm.deref DictShm.method DictShm.call
+attribute [rs_eval] DictShm.path DictShm.deref DictShm.method DictShm.call DictShm.methodA DictShm.callA
+  DictShm.methodB DictShm.methodC DictShm.callC DictShm.pathC DictShm.pathAll DictShm.derefAll DictShm.derefC
+  DictShm.macroC DictShm.fieldOfC DictShm.atomicVal DictShm.addr DictShm.addrPlus DictShm.libcConst DictShm.asInt
   DictShm.ptrA16 DictShm.refA16 DictShm.ptrCeb DictShm.ordering DictShm.asU16 DictShm.asU64 bitInt
 
 /-! the dictionary stays folded (`DictShm.ext`); its fields -/
 @[rs_eval] theorem ext_call : DictShm.ext.call = DictShm.call := rfl
 @[rs_eval] theorem ext_method : DictShm.ext.method = DictShm.method := rfl
-@[rs_eval] theorem ext_path : DictShm.ext.path = DictShm.path := rfl
-@[rs_eval] theorem ext_deref : DictShm.ext.deref = DictShm.deref := rfl
+@[rs_eval] theorem ext_path : DictShm.ext.path = DictShm.pathAll := rfl
+@[rs_eval] theorem ext_deref : DictShm.ext.deref = DictShm.derefAll := rfl
 @[rs_eval] theorem ext_litFallback : DictShm.ext.litFallback = some .i32 := rfl
 @[rs_eval] theorem ext_errFrom : DictShm.ext.errFrom = Ext.none.errFrom := rfl
-@[rs_eval] theorem ext_macroCall : DictShm.ext.macroCall = Ext.none.macroCall := rfl
-@[rs_eval] theorem ext_fieldOf : DictShm.ext.fieldOf = Ext.none.fieldOf := rfl
+@[rs_eval] theorem ext_macroCall : DictShm.ext.macroCall = DictShm.macroC := rfl
+@[rs_eval] theorem ext_fieldOf : DictShm.ext.fieldOf = DictShm.fieldOfC := rfl
 @[rs_eval] theorem ext_cast : DictShm.ext.cast = Ext.none.cast := rfl
 
 /-- an operand of a known integer type is not retyped -/
@@ -31,6 +33,16 @@ attribute [rs_eval] DictShm.path DictShm.deref DictShm.method DictShm.call
 @[rs_eval] theorem litFallback_int_r (fb : Option IntTy) (a : Value) (t : IntTy) (y : Int) (h : t ≠ .infer) :
     litFallback fb a (.int t y) = (a, .int t y) := by
   unfold litFallback; split <;> simp_all
+
+/-- operands that are not integers are not retyped -/
+@[rs_eval] theorem litFallback_list_l (fb : Option IntTy) (l : List Value) (b : Value) :
+    litFallback fb (.list l) b = (.list l, b) := by unfold litFallback; split <;> simp_all
+@[rs_eval] theorem litFallback_enumv_l (fb : Option IntTy) (p : String) (l : List Value) (b : Value) :
+    litFallback fb (.enumv p l) b = (.enumv p l, b) := by unfold litFallback; split <;> simp_all
+@[rs_eval] theorem litFallback_ext_l (fb : Option IntTy) (p : String) (l : List Value) (b : Value) :
+    litFallback fb (.ext p l) b = (.ext p l, b) := by unfold litFallback; split <;> simp_all
+@[rs_eval] theorem litFallback_bool_l (fb : Option IntTy) (x : Bool) (b : Value) :
+    litFallback fb (.bool x) b = (.bool x, b) := by unfold litFallback; split <;> simp_all
 
 /-- setting the lowest bit: the next odd number unless the number is odd already (`gen | 0x0001`) -/
 theorem lor_one (g : Nat) : g ||| 1 = if g % 2 = 0 then g + 1 else g := by
